@@ -283,9 +283,12 @@ Definition run_line (m : mode) (line : list N) : list N :=
            plan = conn|conn.., conn = first/second/svc1/svc2 *)
         match parse_proto pr, rest with
         | Some p, [e; plan] =>
+            (* h: no further connection; instead every connection's setup awaits a hello byte of its peer, the setups overlapping
+               in time: for the accept loop these are ordinary connections, set up one after the other *)
             let endev := match e with
-                         | 101 :: 58 :: k => option_map (fun k => AConn (SetupErr k)) (parse_kind k)
-                         | [114] => Some (AConn SetupReject)
+                         | 101 :: 58 :: k => option_map (fun k => [AConn (SetupErr k)]) (parse_kind k)
+                         | [114] => Some [AConn SetupReject]
+                         | [104] => Some []
                          | _ => None end in
             let conns := opt_all (map (fun c : list N =>
                            match split 47 c with
@@ -296,7 +299,7 @@ Definition run_line (m : mode) (line : list N) : list N :=
                            | _ => None end) (split 124 plan)) in
             match endev, conns with
             | Some ev, Some cs =>
-                let '(served, r) := serve (map (fun c => AConn (SetupService (fst c))) cs ++ [ev]) in
+                let '(served, r) := serve (map (fun c => AConn (SetupService (fst c))) cs ++ ev) in
                 let wr (t : list tev) := flat_map (fun x => match x with TWrote b => [b] | _ => [] end) t in
                 s2l "serve=" ++
                 match r with
